@@ -162,6 +162,12 @@ class Tr:
                 continue
             if isinstance(child, ast.expr):
                 kids.append(self.E(child, ren, bound))
+        # operators are part of the (opaque) function's name: `rounds+1` and `rounds-1` are different functions of `rounds`
+        # (the loop-count theorems of C05L interpret `op:Add`, `op:Sub`, `fn:range`, `fn:len` through explicit contracts)
+        if isinstance(node, (ast.BinOp, ast.UnaryOp, ast.BoolOp)):
+            return {'call': 'op:' + type(node.op).__name__, 'args': kids}
+        if isinstance(node, ast.Compare):
+            return {'call': 'op:' + '_'.join(type(o).__name__ for o in node.ops), 'args': kids}
         return {'call': 'op:' + type(node).__name__, 'args': kids}
 
     # ------------------------------------------------------------------ statements
